@@ -1694,6 +1694,137 @@ theorem build_spec_meta (src : Source) (fr : Runtime) (h : build src = some fr) 
           simp [List.map_map, Function.comp_def]
 
 
+/-! ### `RetainManager::save_snapshot`: what an `Ok` means -/
+
+/-- The manager's memory is backed by the medium: what it believes written IS the file.  Holds
+after `configure` (nothing remembered) and is preserved by every save, failing or not. -/
+def MgrConsistent (m : RetainMgr) (d : Disk) : Prop :=
+  ∀ l, m.lastSnapshot = some l → d.file = some l
+
+/-- "`f` is `snap` up to the manager's equality test". -/
+def HoldsUpToEq (d : Disk) (snap : Snapshot) : Prop :=
+  ∃ f, d.file = some f ∧ (f = snap ∨ snapEq f snap = true)
+
+/-- `self.last_snapshot.as_ref() == Some(&snapshot)`. -/
+def RetainMgr.unchanged (m : RetainMgr) (snap : Snapshot) : Bool :=
+  match m.lastSnapshot with
+  | some l => snapEq l snap
+  | none => false
+
+theorem saveSnapshot_eq (m : RetainMgr) (snap : Snapshot) (now : Int) (d : Disk) :
+    m.saveSnapshot snap now d =
+      if m.unchanged snap then ({ m with dirty := false, lastSave := now }, d, none)
+      else if d.writable then
+        ({ m with lastSnapshot := some snap, dirty := false, lastSave := now },
+         { d with file := some snap }, none)
+      else (m, d, some .retainStore) := rfl
+
+theorem saveSnapshot_ok (m m' : RetainMgr) (snap : Snapshot) (now : Int) (d d' : Disk)
+    (hc : MgrConsistent m d) (h : m.saveSnapshot snap now d = (m', d', none)) :
+    HoldsUpToEq d' snap ∧ MgrConsistent m' d' := by
+  rw [saveSnapshot_eq] at h
+  cases hu : m.unchanged snap with
+  | true =>
+    simp only [hu, if_true, Prod.mk.injEq, and_true] at h
+    obtain ⟨h1, h2⟩ := h
+    subst h1; subst h2
+    unfold RetainMgr.unchanged at hu
+    cases hl : m.lastSnapshot with
+    | none => simp [hl] at hu
+    | some l =>
+      simp only [hl] at hu
+      exact ⟨⟨l, hc l hl, Or.inr hu⟩, fun l' hl' => hc l' (hl.trans (by simpa [hl] using hl'))⟩
+  | false =>
+    simp only [hu, Bool.false_eq_true, if_false] at h
+    cases hw : d.writable with
+    | true =>
+      simp only [hw, if_true, Prod.mk.injEq, and_true] at h
+      obtain ⟨h1, h2⟩ := h
+      subst h1; subst h2
+      refine ⟨⟨snap, rfl, Or.inl rfl⟩, ?_⟩
+      intro l' hl'
+      simp only [Option.some.injEq] at hl'
+      subst hl'; rfl
+    | false =>
+      simp only [hw, Bool.false_eq_true, if_false, Prod.mk.injEq] at h
+      exact absurd h.2.2 (by simp)
+
+theorem saveSnapshot_err (m m' : RetainMgr) (snap : Snapshot) (now : Int) (d d' : Disk) (e : Err)
+    (h : m.saveSnapshot snap now d = (m', d', some e)) : m' = m ∧ d' = d ∧ d.writable = false := by
+  rw [saveSnapshot_eq] at h
+  cases hu : m.unchanged snap with
+  | true =>
+    simp only [hu, if_true, Prod.mk.injEq] at h
+    exact absurd h.2.2 (by simp)
+  | false =>
+    simp only [hu, Bool.false_eq_true, if_false] at h
+    cases hw : d.writable with
+    | true =>
+      simp only [hw, if_true, Prod.mk.injEq] at h
+      exact absurd h.2.2 (by simp)
+    | false =>
+      simp only [hw, Bool.false_eq_true, if_false, Prod.mk.injEq] at h
+      exact ⟨h.1.symm, h.2.1.symm, rfl⟩
+
+/-- One save call of a history: the retained values at that moment, the clock, and whether the
+medium accepts a write. -/
+structure SaveCall where
+  snap : Snapshot
+  now : Int
+  writable : Bool
+
+/-- A whole sequence of save calls; returns the manager, the medium and the result of the LAST
+call (`none` for the empty sequence). -/
+def runSaves : RetainMgr → Disk → List SaveCall → RetainMgr × Disk × Option (Option Err)
+  | m, d, [] => (m, d, none)
+  | m, d, [c] =>
+    let r := m.saveSnapshot c.snap c.now { d with writable := c.writable }
+    (r.1, r.2.1, some r.2.2)
+  | m, d, c :: c' :: rest =>
+    let r := m.saveSnapshot c.snap c.now { d with writable := c.writable }
+    runSaves r.1 r.2.1 (c' :: rest)
+
+theorem saveSnapshot_consistent (m : RetainMgr) (snap : Snapshot) (now : Int) (d : Disk)
+    (hc : MgrConsistent m d) :
+    MgrConsistent (m.saveSnapshot snap now d).1 (m.saveSnapshot snap now d).2.1 := by
+  cases hr : m.saveSnapshot snap now d with
+  | mk m' r =>
+    obtain ⟨d', res⟩ := r
+    cases res with
+    | none => exact (saveSnapshot_ok m m' snap now d d' hc hr).2
+    | some e =>
+      obtain ⟨h1, h2, _⟩ := saveSnapshot_err m m' snap now d d' e hr
+      simp only
+      rw [h1, h2]; exact hc
+
+theorem runSaves_spec : ∀ (calls : List SaveCall) (m : RetainMgr) (d : Disk), MgrConsistent m d →
+    MgrConsistent (runSaves m d calls).1 (runSaves m d calls).2.1 ∧
+    ∀ c, calls.getLast? = some c → (runSaves m d calls).2.2 = some none →
+      HoldsUpToEq (runSaves m d calls).2.1 c.snap
+  | [], m, d, hc => ⟨hc, fun c h => by simp at h⟩
+  | [c0], m, d, hc => by
+    have hc' : MgrConsistent m { d with writable := c0.writable } := fun l hl => hc l hl
+    refine ⟨saveSnapshot_consistent m c0.snap c0.now _ hc', ?_⟩
+    intro c hl hres
+    simp only [List.getLast?_singleton, Option.some.injEq] at hl
+    subst hl
+    simp only [runSaves, Option.some.injEq] at hres ⊢
+    cases hr : m.saveSnapshot c0.snap c0.now { d with writable := c0.writable } with
+    | mk m' r =>
+      obtain ⟨d', res⟩ := r
+      rw [hr] at hres
+      simp only at hres
+      subst hres
+      exact (saveSnapshot_ok m m' c0.snap c0.now _ d' hc' hr).1
+  | c0 :: c1 :: rest, m, d, hc => by
+    have hc' : MgrConsistent m { d with writable := c0.writable } := fun l hl => hc l hl
+    have hstep := saveSnapshot_consistent m c0.snap c0.now _ hc'
+    have ih := runSaves_spec (c1 :: rest) _ _ hstep
+    simp only [runSaves]
+    refine ⟨ih.1, ?_⟩
+    intro c hl hres
+    exact ih.2 c (by simpa [List.getLast?_cons_cons] using hl) hres
+
 /-! ### task seeding and zeroed images -/
 
 theorem registerTaskState_congr (s s' : Storage) (single : Option Nat)
@@ -1733,7 +1864,7 @@ def mW0 : IoAddr := { area := .memory, size := .word, byte := 0, bit := 0 }
 def l (n : Nat) : Target := { scope := .l, name := n }
 def g (n : Nat) : Target := { scope := .g, name := n }
 def plain (n : Nat) (pol : Policy) (v : Val) : PVarDecl := { var := { name := n, retain := pol, init := .plain v } }
-def cyc (rt : Runtime) : Runtime := (cycle rt none).1
+def cyc (rt : Runtime) : Runtime := (cycle rt {}).1
 def cycN : Nat → Runtime → Runtime
   | 0, rt => rt
   | n + 1, rt => cycN n (cyc rt)
@@ -1804,7 +1935,7 @@ def warm3 : Option (Option Int × Option Int) :=
 def power3 : Option (Option Int × Option Int) :=
   (build src3).bind fun rt =>
     let rt := cycN 2 (setRetainStore rt false)
-    let disk := saveRetainStore rt none
+    let disk := (saveRetainStore rt {}).2.1
     (build src3).map fun fr =>
       let fr := loadRetainStore (setRetainStore fr false) disk
       (num? (fr.progVar 0 1), num? (fr.storage.getGlobal 10))
@@ -1873,11 +2004,21 @@ cycle, save (file holds `gr = 1`), three more cycles (`gr = 4`), then `restart(W
 def rollback7 : Option (Option Int × Option Int × Option Int) :=
   (build src3).map fun rt =>
     let rt := cyc (setRetainStore rt false)
-    let disk := saveRetainStore rt none
+    let disk := (saveRetainStore rt {}).2.1
     let rt := cycN 3 rt
     let w := restartD .warm rt
     (num? (rt.storage.getGlobal 10), num? (w.storage.getGlobal 10),
      num? ((loadRetainStore w disk).storage.getGlobal 10))
+
+/-- Witness 8 (a failed write is not remembered as written): witness 3's project with a store;
+two cycles (`gr = 2`), the medium is unwritable: `save` fails; the medium recovers; the retry with
+the SAME retained values must write.  Result of the two saves and the stored value of `gr`. -/
+def failRetry8 : Option (Option Err × Option Err × Option Int) :=
+  (build src3).map fun rt =>
+    let rt := cycN 2 (setRetainStore rt false)
+    let (rt1, d1, r1) := saveRetainStore rt { writable := false }
+    let (_, d2, r2) := saveRetainStore rt1 { d1 with writable := true }
+    (r1, r2, num? (d2.file.bind (aget · 10)))
 
 end W
 
